@@ -304,13 +304,31 @@ def run(tier):
                     uniq[k] = lr
                     order.append(lr)
             small = [lr for lr in order if len(lr["page"]) <= (400 if quick else 3000)]
-            json.dump([{"first": lr["first"], "page": lr["page"], "used": lr["used"]} for lr in small], open(p, "w"))
-            tr = tlc.run_tlc("ListingLayoutTrace", None, workers=1, timeout=1800, heap="8g", env={"TRACE_FILE": p},
-                             cfg_text="CONSTANT MaxLines = 0\nINIT TInit\nNEXT TNext\nCONSTRAINT Report\nCHECK_DEADLOCK FALSE\n")
-            rep.add_tlc("ListingLayoutTrace (%d recorded table pages)" % len(small), tr)
+            # several TLC processes side by side, pages dealt out by length (a single process took over half an hour on the
+            # thorough tier's 3000-line pages)
+            from concurrent.futures import ThreadPoolExecutor
+            nchunk = 1 if quick else 12
+            chunks = [[] for _ in range(nchunk)]
+            for k_, lr in enumerate(sorted(small, key=lambda x: -len(x["page"]))):
+                chunks[k_ % nchunk].append(lr)
+            chunks = [c_ for c_ in chunks if c_]
+
+            def one(ci):
+                pc = os.path.join(work, "pages%d.json" % ci)
+                json.dump([{"first": lr["first"], "page": lr["page"], "used": lr["used"]} for lr in chunks[ci]], open(pc, "w"))
+                return tlc.run_tlc("ListingLayoutTrace", None, workers=1, timeout=5400, heap="6g", env={"TRACE_FILE": pc},
+                                   cfg_text="CONSTANT MaxLines = 0\nINIT TInit\nNEXT TNext\nCONSTRAINT Report\nCHECK_DEADLOCK FALSE\n")
+            with ThreadPoolExecutor(max_workers=len(chunks)) as ex_:
+                results = list(ex_.map(one, range(len(chunks))))
+            emitted = []
+            for ci, tr in enumerate(results):
+                rep.add_tlc("ListingLayoutTrace (%d recorded table pages, part %d/%d)" % (len(chunks[ci]), ci + 1, len(chunks)), tr)
+                for e in tr.emitted:
+                    e["lr"] = chunks[ci][e["i"] - 1]
+                    emitted.append(e)
             rep.traces += len(small)
-            for e in tr.emitted:
-                lr = small[e["i"] - 1]
+            for e in emitted:
+                lr = e.pop("lr")
                 fname, i, t = lr["meta"]
                 det = {"file": fname, "index": i, "table": t, "tlc": e}
                 if not e["reader_on_rows"]:
